@@ -697,7 +697,11 @@ class CallMixin(object):
             return None
         if isinstance(it, PyObj):
             o = it.o
-            if isinstance(o, (list, tuple, set, frozenset)):
+            if isinstance(o, tuple) and o and o[0] == 'dictview':
+                return None
+            if isinstance(o, tuple) and len(o) == 2 and o[0] in (range, enumerate, zip, reversed, map, filter, iter):
+                pass
+            elif isinstance(o, (list, tuple, set, frozenset)):
                 return [self.lift(x) for x in o]
             if isinstance(o, dict):
                 return [self.lift(x) for x in o]
